@@ -17,9 +17,12 @@
        of the hashed bytes — the writer's own bytes (the rename went through) or a file that was already there (the rename
        failed and exists() said yes: by (2) it carries the same digest) — and a keyed commit answers Ok only if the index
        insert answered Ok from that state, which by (3) is the state of the complete insert.
+   (5) other entries are unaffected: in ANY faulty run of a keyed one-shot write, every other key's lookup and every
+       other stored content file are exactly as before, the index area stays well-shaped, and the written key's lookup is
+       its previous entry or the complete new one (FaultFrameP.v).
    Partial: kernel errno semantics and the mapping of library-internal syscalls to model steps (one model step may be
    several syscalls) are exercised by the strace fault sweep, compared by oracle, not step for step. *)
-From CC Require Import Bytes Codec Utf8 Lines Json Sri Record Fs Prog Api Crash BytesP CodecP LinesP FsP ProgP SriP RecordP IndexP ReadP WriteP CommitP RemoveP TotalP CrashP CrashIdxP FaultP.
+From CC Require Import Bytes Codec Utf8 Lines Json Sri Record Fs Prog Api Crash BytesP CodecP LinesP FsP ProgP SriP RecordP IndexP ReadP WriteP CommitP RemoveP TotalP CrashP CrashIdxP FaultP ConfineP KeepP Sess SessP JsonP RecCodecP MetaP HistP FaultFrameP.
 
 Section C13.
 Variable hash : algo -> bytes -> bytes.
@@ -77,6 +80,17 @@ Theorem C13_commit_truthful f w now i f' :
     end.
 Proof. exact (commit_faulty_ok hash HL f w now i f'). Qed.
 
+Theorem C13_write_faulty_others f fl a key data now r f' :
+  IndexInv f ->
+  let o' := commit_opts (write_opts fl a data) (sri_of hash a data) (lenN data) in
+  wf_rec hash (smeta_of key o' now) -> PrefixFree hash (encode_smeta (smeta_of key o' now)) ->
+  frun (write hash fl a key data now) f r f' ->
+  IndexInv f' /\
+  (forall k, k <> key -> abs_idx hash f' k = abs_idx hash f k) /\
+  (forall l, cfile hash l -> InCache (cpath hash a data) <> l -> lookup f' l = lookup f l) /\
+  (abs_idx hash f' key = abs_idx hash f key \/ abs_idx hash f' key = new_entry key o' now).
+Proof. exact (write_faulty_others hash HL f fl a key data now r f'). Qed.
+
 (* what SameIdx gives: the index area is well-shaped, every key's lookup and every non-index location unchanged *)
 Theorem C13_same_idx f c :
   SameIdx hash f c -> IndexInv c /\ (forall k, abs_idx hash c k = abs_idx hash f k) /\ (forall l, ~ is_index l -> lookup c l = lookup f l).
@@ -108,3 +122,4 @@ Print Assumptions C13_insert_faulty.
 Print Assumptions C13_same_idx.
 Print Assumptions C13_close_truthful.
 Print Assumptions C13_commit_truthful.
+Print Assumptions C13_write_faulty_others.
